@@ -88,6 +88,12 @@ var pkgNames = map[string]string{"": "lz4", "internal/lz4block": "lz4block", "in
 
 // replayTapes runs the tapes natively (all must share pkg and tags) and returns one outcome per tape.
 func replayTapes(tapes []*Tape, pkg, tags string, log *bytes.Buffer) ([]Outcome, error) {
+	return replayTapesOpt(tapes, pkg, tags, log, false)
+}
+
+// replayTapesOpt: with race set the test binary is built with the Go race detector, which stops
+// the process at the first data race it sees (reported as a crash of that tape).
+func replayTapesOpt(tapes []*Tape, pkg, tags string, log *bytes.Buffer, race bool) ([]Outcome, error) {
 	if len(tapes) == 0 {
 		return nil, nil
 	}
@@ -123,7 +129,12 @@ func replayTapes(tapes []*Tape, pkg, tags string, log *bytes.Buffer) ([]Outcome,
 	env := append(os.Environ(), "GOFLAGS=-mod=mod", "GOPROXY=off", "GOSUMDB=off", "GOTOOLCHAIN=local",
 		"VERIF_TAPES="+tapesPath, "VERIF_OUT="+outPath)
 	// build once
-	build := exec.Command("go", "test", "-c", "-vet=off", "-tags", tags, "-overlay", ovPath, "-o", binPath, target)
+	bargs := []string{"test", "-c", "-vet=off", "-tags", tags, "-overlay", ovPath, "-o", binPath}
+	if race {
+		bargs = append(bargs, "-race")
+		env = append(env, "GORACE=halt_on_error=1 exitcode=66")
+	}
+	build := exec.Command("go", append(bargs, target)...)
 	build.Dir = repoDir
 	build.Env = env
 	bo, err := build.CombinedOutput()
@@ -169,7 +180,15 @@ func replayTapes(tapes []*Tape, pkg, tags string, log *bytes.Buffer) ([]Outcome,
 		}
 		if cur >= 0 && cur < len(outs) {
 			// began but never finished: the process died in this tape
-			outs[cur] = Outcome{Job: tapes[cur].Job, Crash: true, Panic: "process died: " + tail(co, 600)}
+			msg := "process died: " + tail(co, 600)
+			if i := bytes.Index(co, []byte("WARNING: DATA RACE")); i >= 0 {
+				end := i + 1200
+				if end > len(co) {
+					end = len(co)
+				}
+				msg = string(co[i:end])
+			}
+			outs[cur] = Outcome{Job: tapes[cur].Job, Crash: true, Panic: msg}
 			last = cur
 		}
 		if last+1 <= start {
@@ -247,6 +266,20 @@ func judgeTape(tp *Tape, o Outcome) (bool, string) {
 				return true, ""
 			}
 			return false, "engine predicted an out-of-bounds access by the assembly, the native run shows no misbehaviour"
+		case strings.HasPrefix(want, "conc-race"):
+			if o.Crash && strings.Contains(o.Panic, "DATA RACE") {
+				return true, ""
+			}
+			return false, fmt.Sprintf("the Go race detector reported nothing in this native run (fail=%q panic=%q)", o.Fail, o.Panic)
+		case strings.HasPrefix(want, "conc-deadlock"):
+			if o.Hang || (o.Crash && strings.Contains(o.Panic, "all goroutines are asleep")) {
+				return true, ""
+			}
+			if o.Crash {
+				// the process died on this input (e.g. the race detector stopped it): misbehaviour all the same
+				return true, ""
+			}
+			return false, fmt.Sprintf("the native run did not hang (fail=%q panic=%q)", o.Fail, o.Panic)
 		case strings.HasPrefix(want, "no-panic"):
 			if o.Panic != "" || o.Crash {
 				return true, ""
